@@ -16,7 +16,7 @@ META = {
         "engine": "vkit (E2)",
         "technique": "exhaustive enumeration of integer byte shapes x encodings, message types x optional parts x encodings, key documents x single-element mutations x readers, prior file states x umasks x overwrite flag",
         "text": "Integers: byte lengths 0..40 and 127..257 in seven bit patterns (and their negatives) through JSON base64/decimal, XML, binary, CBOR. Messages: every proof-list shape, issuance messages, credential, revocation update/witness/signed accumulator (0..3 events, JSON and CBOR), keyshare messages: re-encoding byte-identical and the re-read object verifies as before. Keys: 0..20 bases x revocation parts through five readers; every leaf element of a public and a private key document deleted / emptied / negated / garbled, count mismatches, unsupported modulus lengths, inconsistent and non-safe primes: error, never a key, never a panic. Files: seven prior states x three umasks x overwrite flag: a file holding the private key has mode & 077 == 0.",
-        "note": "Runs as root (mode bits observed, not permission enforcement). Crash points inside WriteToFile (E5, strace injection) are not part of the registered commands yet.",
+        "note": "Runs as root (mode bits observed, not permission enforcement). Crash points: every prefix of the strace-logged system-call history of the real WriteToFile is replayed on a file model (skipped with a cap if strace cannot trace).",
     },
     "C08": {
         "engine": "vkit (E2)",
